@@ -67,11 +67,33 @@ package cache
 //@ func (*BugCache).EditCreateCommentRaw
 //@ func (*BugCache).EditCommentRaw
 //@ func (*BugCache).SetMetadataRaw
+//@   props C18
+//@   opt locks
+//@   opt post_unguarded
+//@   requires [authored-by-request-user] requestUser != nil ==> typeof(author) == type[*IdentityCache] && author.(*IdentityCache) == requestUser
+//@   requires [not-held@locks] c != nil && sync.rwheld[&c.mu] == 0
+//@   modifies bugOps, repoWrites
+//@   opt trusted_frame
+//@   defines bugOps >= old(bugOps) && (err == nil ==> bugOps == old(bugOps) + 1)
+//@   ensures [lock-balanced] forall m *sync.RWMutex :: { sync.rwheld[m] } sync.rwheld[m] == old(sync.rwheld[m])
 //@ func (*RepoCacheBug).NewRaw
 //@   trusted
 //@   requires [authored-by-request-user] requestUser != nil ==> typeof(author) == type[*IdentityCache] && author.(*IdentityCache) == requestUser
 //@   modifies bugOps, repoWrites
 //@   ensures bugOps >= old(bugOps) && (err == nil ==> bugOps == old(bugOps) + 1)
+
+// The sub-cache is told about an edit only after the entity's own lock has been released: entityUpdated takes
+// the sub-cache lock and, holding it, the entity's read lock (to build the excerpt) - notifying with the
+// entity lock held would invert that order.
+//@ func (*CachedEntityBase).notifyUpdated
+//@   props C18
+//@   opt locks
+//@   opt interior_ok
+//@   opt post_unguarded
+//@   requires [entity-lock-free@locks] e != nil && sync.rwheld[&e.mu] == 0
+//@   modifies repoWrites
+//@   opt trusted_frame
+//@   ensures [lock-balanced] forall m *sync.RWMutex :: { sync.rwheld[m] } sync.rwheld[m] == old(sync.rwheld[m])
 
 //@ func (*BugCache).AddComment
 //@ func (*BugCache).AddCommentWithFiles
@@ -487,3 +509,31 @@ package cache
 //@   opt locks
 //@   requires [not-held] sc != nil && sync.rwheld[&sc.mu] == 0
 //@   ensures [lock-balanced] forall m *sync.RWMutex :: { sync.rwheld[m] } sync.rwheld[m] == old(sync.rwheld[m])
+
+// Committing, validating and mutating a cached entity: the entity lock is taken and released around the
+// entity-level call on every path, and the sub-cache is notified with no lock held.
+//@ func (*CachedEntityBase).Commit
+//@ func (*CachedEntityBase).CommitAsNeeded
+//@ func (*CachedEntityBase).NeedCommit
+//@ func (*CachedEntityBase).Validate
+//@   props C18
+//@   opt locks
+//@   opt interior_ok
+//@   requires [not-held] e != nil && sync.rwheld[&e.mu] == 0
+//@   ensures [lock-balanced] forall m *sync.RWMutex :: { sync.rwheld[m] } sync.rwheld[m] == old(sync.rwheld[m])
+//@ func (*IdentityCache).notifyUpdated
+//@   props C18
+//@   opt locks
+//@   opt post_unguarded
+//@   opt assume_pre=identity.(*Identity)
+//@   requires [entity-lock-free@locks] i != nil && !sync.mheld[&i.mu]
+//@   modifies repoWrites
+//@   opt trusted_frame
+//@   ensures [lock-balanced] forall m *sync.Mutex :: { sync.mheld[m] } sync.mheld[m] == old(sync.mheld[m])
+//@ func (*IdentityCache).Mutate
+//@ func (*IdentityCache).Commit
+//@ func (*IdentityCache).CommitAsNeeded
+//@   props C18
+//@   opt locks
+//@   requires [not-held] i != nil && !sync.mheld[&i.mu]
+//@   ensures [lock-balanced] forall m *sync.Mutex :: { sync.mheld[m] } sync.mheld[m] == old(sync.mheld[m])
